@@ -286,6 +286,27 @@ def step (d : DState) (line : String) : IO DState := do
     | some s => out s!"size {s.onDiskSize}"
     | none => out "size none"
     return d
+  | ["dumpw"] =>
+    -- `RaftLog::dump()`: every record of the closed chunks and the open chunk, read back from the files
+    match d.sys.store with
+    | some s =>
+      for id in s.closed.map Closed.id ++ [s.openId] do
+        match d.sys.fs.find id with
+        | none => out s!"rec {id} - err notFound"
+        | some f =>
+          let x := parseChunk f.data
+          let offs := offsetsFrom 0 (x.1.map (·.2))
+          let mut i := 0
+          for (r, sz) in x.1 do
+            out s!"rec {id} {i} {offs[i]!},{sz} {showRecord r}"
+            i := i + 1
+          match x.2.1 with
+          | .clean => pure ()
+          | .eof => out s!"rec {id} {i} err eof"
+          | .invalid => out s!"rec {id} {i} err invalid"
+      out "dumpw end"
+    | none => out "dumpw none"
+    return d
   | ["dir"] => out d.sys.fs.showDir; return d
   | ["lay"] =>
     for id in d.sys.fs.linkedIds do
